@@ -18,7 +18,8 @@ theorem old_naming_collides :
 
 /-- … while the repaired naming takes the first unused suffix. -/
 theorem new_naming_distinct :
-    assignNames [] [lc "foo-I", lc "foo", lc "foo"] = some [lc "foo-I", lc "foo", lc "foo-II"] := by decide
+    assignNames [] [lc "foo-I", lc "foo", lc "foo"] = some [(0, lc "foo-I"), (0, lc "foo"), (0, lc "foo-II")] := by
+  decide
 
 /-- (b) a step called `step1` is kept as component name although it is not a valid component name
 (`SignatureNamePattern.fullmatch` is `None` in the code → `AttributeError`); the repaired flattener reports it. -/
@@ -40,5 +41,42 @@ theorem old_env_unknown_parameter_raises_keyerror :
     envOfOld [(lc "env", [.dict (lc "{A:1}")])] (some (lc "nosuch")) = .keyError ∧
     envOf [(lc "env", [.dict (lc "{A:1}")])] (some (lc "nosuch")) = none ∧
     envOfOld [(lc "env", [.dict (lc "{A:1}")])] (some (lc "env")) = .ok (.dict (lc "{A:1}")) := by decide
+
+/-- (e) why names must be compared as parsed `(stage, name)` pairs: the step names `generate` and `stage0.generate`
+are different strings, both are read as `(0, generate)` by the name pattern; the naming keeps them apart. -/
+theorem spellings_collide_as_strings_not_as_names :
+    lc "generate" ≠ lc "stage0.generate" ∧
+    parseName (lc "generate") = parseName (lc "stage0.generate") ∧
+    assignNames [] [lc "generate", lc "stage0.generate"] = some [(0, lc "generate"), (0, lc "generate-I")] := by decide
+
+private def e : Name := entryName
+private def first (replicates : Bool) : Inst :=
+  ⟨[e, lc "first"], .tmpl true 0 (some 0), 0, [], [], none, replicates, false, false⟩
+private def second (aggregates : Bool) : Inst :=
+  ⟨[e, lc "second"], .tmpl true 0 (some 1), 1, [(lc "m", [.ref [e, lc "first"] (some (lc "output"))])], [], none,
+    false, aggregates, false⟩
+private def third : Inst :=
+  ⟨[e, lc "third"], .tmpl true 0 (some 2), 2, [(lc "m", [.ref [e, lc "second"] (some (lc "output"))])], [], none,
+    false, false, false⟩
+/-- `first` (replicates?) → `second` (aggregates?) → `third` -/
+private def chain (secondAggregates firstReplicates : Bool) : List Inst :=
+  [first firstReplicates, second secondAggregates, third]
+
+/-- (f) the hypothesis `Memo.Sound` of `memo_answer_sound` is needed: with memo dictionaries that hold entries of
+*another* namespace (same locations, other roles) `can_template_replicate` answers wrongly in both directions —
+`third` of `first(replicate) → second → third` is a replica, but not with a stale "`second` aggregates" entry;
+`third` of `first → second → third` (nothing replicates) is not, but is with a stale "`second` replicates" entry. -/
+theorem stale_memo_changes_the_answer :
+    isReplica (chain false true) third = true ∧
+    (canReplicateM (chain false true) {} third).1 = true ∧
+    (canReplicateM (chain false true) { agg := [[e, lc "second"]] } third).1 = false ∧
+    isReplica (chain false false) third = false ∧
+    (canReplicateM (chain false false) {} third).1 = false ∧
+    (canReplicateM (chain false false) { rep := [[e, lc "second"]] } third).1 = true := by decide
+
+/-- the memo a compilation leaves behind is exactly such an entry: compiling `first(replicate) → second(aggregate)`
+records "`entry-instance/second` aggregates" -/
+theorem memo_left_behind :
+    (canReplicateM (chain true true) {} (second true)).2 = { agg := [[e, lc "second"]] } := by decide
 
 end St4sd.C06.Witness
